@@ -348,6 +348,12 @@ func runC11(c *fw.Ctx, cs fw.Case) {
 		}
 		return
 	}
+	if cs.Kind == "console" {
+		for i := 0; i < cs.N; i++ {
+			consoleTransparency(c, r, cs.Idx*100+i)
+		}
+		return
+	}
 	budget := 6000.0
 	if !c.Quick() {
 		budget = 40000
@@ -489,16 +495,17 @@ func init() {
 		ID:          "C11",
 		Level:       "exploration",
 		Technique:   "runtime differential monitor: every search with a (recording) transposition table compared with the same search without table; sampled exact entries re-derived by table-less search on a fork taken at write time",
-		Rule:        "position-determined configurations (Material, hash, BERNSTEIN evaluators; full, plausible-move, no-under-promotion exploration; static and captures-quiescence leaves) on repetition-free roots with clock < 80, depth <= 6, table variants 32 B (1 slot) .. 1 MiB and the engine's min-depth wrapper; search sequences on one table: iterative deepening, same search 3x, successive positions of a game, narrowed windows then full window, sibling-first; compared: root score, non-empty PV whose first move is a best move, sampled ExactBound writes vs true value; distinct = distinct (configuration, depth, table, sequence, history)",
+		Rule:        "position-determined configurations (Material, hash, BERNSTEIN evaluators; full, plausible-move, no-under-promotion exploration; static and captures-quiescence leaves) on repetition-free roots with clock < 80, depth <= 6, table variants 32 B (1 slot) .. 1 MiB and the engine's min-depth wrapper; search sequences on one table: iterative deepening, same search 3x, successive positions of a game, narrowed windows then full window, sibling-first; console: the same console-driver session (reset + moves, analyze d, undo, analyze d+1, moves) on an engine with and without hash table: same scores per depth, same table-less per-move breakdown; compared: root score, non-empty PV whose first move is a best move, sampled ExactBound writes vs true value; distinct = distinct (configuration, depth, table, sequence, history)",
 		Assumptions: []string{"table-less alpha-beta is the reference here; it is itself checked against the independent minimax by C03", "scope as the property states: position-determined evaluation, no repetition / fifty-move draw reachable inside the tree (roots certified repetition-free by the rules oracle, depth <= 6, clock + depth < 100)"},
 		Setup:       validateOracle,
 		Timeout:     minutes(15, 120),
 		Cases: func(tier string, seed int64) []fw.Case {
 			l := mkCases(nil, "sequences", 64, seed, pick(tier, 14, 250))
+			l = mkCases(l, "console", 8, seed, pick(tier, 5, 100))
 			return mkCases(l, "engine", 16, seed, pick(tier, 3, 60))
 		},
 		Floors: func(string) map[string]int64 {
-			return map[string]int64{"tt_searches": 1500, "tt_hits": 5000, "exact_entries_verified": 1000, "game_plies": 100, "narrow_window_searches": 100, "engine_tt_compared": 40}
+			return map[string]int64{"tt_searches": 1500, "tt_hits": 5000, "exact_entries_verified": 1000, "game_plies": 100, "narrow_window_searches": 100, "engine_tt_compared": 40, "console_analyses": 80, "console_undo_then_deeper": 15}
 		},
 		Run: runC11,
 	})
